@@ -107,6 +107,8 @@ PROFILES = {
     "cancel": dict(BASE, ntasks=(3, 8), nkinds=(1, 3), bases=(0, 1), p_cancelb=0.35, p_catch=0.5, p_share=0.1, nseg=(2, 4)),
     "kill": dict(BASE, ntasks=(3, 8), p_fail=0.4, p_catch=0.5, p_share=0.15, ctx_types=("async", "override"), p_ctx=0.4, nvars=1, nseg=(2, 4)),
     "helpers": dict(BASE, ntasks=(3, 9), nleaf=(1, 4), p_task=0.55, p_item=0.35, p_via=0.6, nkinds=(1, 2), p_catch=0.3, p_raise=0.05),
+    "batchleaf": dict(BASE, ntasks=(2, 7), nkinds=(1, 3), p_batchleaf=0.15, p_item=0.4, p_share=0.1, flush_modes=("ok", "ok", "raise", "itemerr"),
+                      p_catch=0.4, p_sync=0.1),
     "everything": dict(BASE, ntasks=(2, 8), nkinds=(1, 3), bases=(0, 1), p_share=0.1, p_reyield=0.05,
                        flush_modes=("ok", "ok", "itemerr", "skip", "raise"), p_raise=0.08, p_errleaf=0.04, p_bad=0.03,
                        p_catch=0.35, p_sync=0.15, ctx_types=("async", "override"), p_ctx=0.35, nvars=1, p_read=0.3),
@@ -142,7 +144,7 @@ class Gen(object):
     def leaf(self, t, yielded_before):
         r, p = self.r, self.p
         opts = (("I", p["p_item"]), ("T", p["p_task"]), ("C", p["p_const"]), ("N", p["p_none"]),
-                ("L", p["p_lazy"]), ("E", p["p_errleaf"]), ("LF", p["p_lazyfail"]), ("Bad", p["p_bad"]), ("D", p["p_dedup"]))
+                ("L", p["p_lazy"]), ("E", p["p_errleaf"]), ("LF", p["p_lazyfail"]), ("Bad", p["p_bad"]), ("D", p["p_dedup"]), ("B", p.get("p_batchleaf", 0.0)))
         x = r.random() * sum(w for _, w in opts)
         acc = 0.0
         tag = "I"
@@ -165,6 +167,8 @@ class Gen(object):
             return S("T", u)
         if tag == "C":
             return S("C", r.randint(1, 3))
+        if tag == "B":
+            return S("B", r.randint(1, self.nk))
         if tag == "D":
             u = self.alloc()
             if u is None:
